@@ -3,6 +3,7 @@ needs to close the system: in-memory output file, seat-table proxy, controlled `
 from __future__ import annotations
 
 import importlib
+import io
 import logging
 import sys
 from typing import Any, Callable, Dict, List, Optional
@@ -59,39 +60,41 @@ def load() -> dict:
     return mods
 
 
-class MemFile:
-    """In-memory text file standing in for the server's output file."""
+class MemFile(io.StringIO):
+    """In-memory text file standing in for the server's output file: a real io.StringIO (write, tell, seek, truncate, ... behave as
+    on a file opened in text mode) that keeps its content after close() and records writes attempted after the close."""
 
     def __init__(self, store: dict, path: str):
+        super().__init__()
         self.store = store
         self.path = path
-        self.chunks: List[str] = []
-        self.closed = False
+        self._closed_flag = False
         self.writes_after_close = 0
+        self._final = None
         store[path] = self
 
     def write(self, s):
-        if self.closed:
+        if self._closed_flag:
             self.writes_after_close += 1
             raise ValueError('I/O operation on closed file.')
-        self.chunks.append(s)
-        return len(s)
-
-    def flush(self):
-        pass
+        return super().write(s)
 
     def close(self):
-        self.closed = True
+        if not self._closed_flag:
+            self._final = self.getvalue()
+            self._closed_flag = True
+        # the buffer is kept (not released) so that the content can be inspected after the session
 
-    def __enter__(self):
-        return self
+    @property
+    def closed(self):
+        return self._closed_flag
 
     def __exit__(self, *a):
         self.close()
 
     @property
     def text(self) -> str:
-        return ''.join(self.chunks)
+        return self._final if self._closed_flag else self.getvalue()
 
 
 def make_open(store: dict):
